@@ -31,6 +31,9 @@ Init == \E tol \in Tols :
           \/ \E other \in Tols \ {tol} : \E m \in Single(other) : m > 0 /\ case = [ms |-> <<m>>, tol |-> tol]
           \/ \E i \in Idx : case = [ms |-> <<Table[i].m, 12010700, Table[i].m + 5 * tol>>, tol |-> tol]       \* mixed list
           \/ \E i \in Idx : i + 2 <= Len(Table) /\ case = [ms |-> <<Table[i+2].m, Table[i].m, Table[i+1].m>>, tol |-> tol]
+          \* several non-atomic masses in one list (united-atom / coarse-grained files), alone and next to atomic ones
+          \/ \E l \in {<<500000000, 1000000000>>, <<13000000, 500000>>, <<2500000, 2500000>>, <<400000000, 13000000, 500000000>>,
+                         <<12010700, 500000000, 1000000000>>, <<500000000, 15999400, 13000000>>} : case = [ms |-> l, tol |-> tol]
 Next == UNCHANGED case
 Spec == Init /\ [][Next]_vars
 
